@@ -98,12 +98,17 @@ def worker_main(prop_id, tier, wid, nworkers, verif_seed, budget, max_cases,
     ntkeys = set()
     k = 0
     per_sig = collections.Counter()
+    last_dump = time.time()
     while k < max_cases and time.time() - t0 < budget:
         index = wid + k * nworkers
         k += 1
         seed = case_seed(verif_seed, prop_id, index)
         rng = random.Random(seed)
         print(f'case {index}', flush=True)
+        if time.time() - last_dump > 5:
+            # survive a crash of this interpreter: keep a recent report
+            _dump(rep, keys, ntkeys, t0, outpath, False)
+            last_dump = time.time()
         try:
             case = prop.gen(rng, tier)
             case['index'] = index
@@ -163,14 +168,20 @@ def worker_main(prop_id, tier, wid, nworkers, verif_seed, budget, max_cases,
                     'violation': viol,
                     'case': focus(case, viol) if focus else case
                 })
-    rep['keys'] = sorted(keys)
-    rep['nontrivial_keys'] = sorted(ntkeys)
-    rep['wall'] = time.time() - t0
+    _dump(rep, keys, ntkeys, t0, outpath, True)
+
+
+def _dump(rep, keys, ntkeys, t0, outpath, final):
+    out = dict(rep)
+    out['keys'] = sorted(keys)
+    out['nontrivial_keys'] = sorted(ntkeys)
+    out['wall'] = time.time() - t0
+    out['final'] = final
     for c in ('probes', 'faults', 'aborted', 'viol_counts', 'extra', 'table'):
-        rep[c] = dict(rep[c])
+        out[c] = dict(rep[c])
     tmp = outpath + '.tmp'
     with open(tmp, 'w') as f:
-        json.dump(rep, f)
+        json.dump(out, f)
     os.replace(tmp, outpath)
 
 
@@ -223,16 +234,25 @@ def run_workers(prop_id, tier, nworkers, verif_seed, budget, max_cases,
         log.close()
         if os.path.exists(out):
             with open(out) as f:
-                reports.append(json.load(f))
+                rp = json.load(f)
+            reports.append(rp)
+            if not rp.get('final'):
+                errors.append(f'worker {os.path.basename(out)} died (exit '
+                              f'{p.returncode}) after case {rp.get("last_index")}; '
+                              f'its last periodic report is used')
         else:
             tail = ''
+            lastcase = '?'
             try:
                 with open(log.name) as f:
-                    tail = f.read()[-1500:]
+                    txt = f.read()
+                tail = txt[-3000:]
+                cl = [ln for ln in txt.splitlines() if ln.startswith('case ')]
+                lastcase = cl[-1] if cl else '?'
             except OSError:
                 pass
-            errors.append(f'worker produced no report (exit {p.returncode}): '
-                          f'{tail}')
+            errors.append(f'worker {os.path.basename(out)} produced no report '
+                          f'(exit {p.returncode}), last {lastcase}: {tail}')
     return reports, errors
 
 
